@@ -8,6 +8,7 @@ import (
 	"sort"
 	"strings"
 	"testing"
+	"time"
 
 	"github.com/openbao/openbao/sdk/v2/helper/verifx"
 	"github.com/openbao/openbao/sdk/v2/logical"
@@ -100,6 +101,8 @@ type c02Tok struct {
 	cidr     bool // bound to 10.0.0.0/8
 	batch    bool
 	root     bool
+	entity   string // identity entity the token is bound to ("" = none)
+	entityOff bool  // that entity is currently disabled
 }
 
 type c02World struct {
@@ -406,6 +409,74 @@ func TestVerif_C02_Authz(t *testing.T) {
 				w.toks = append(w.toks, tk)
 				w.logf("token %s ns=%q policies=%v uses=%d cidr=%v batch=%v", tk.name, ns, pols, tk.uses, tk.cidr, tk.batch)
 			},
+			// a token bound to an identity entity; the entity can be disabled and enabled again
+			"entity-token": func(rt *rapid.T) {
+				if len(w.toks) >= 7 {
+					return
+				}
+				er, err := tc.c.identityStore.HandleRequest(tc.ctx, &logical.Request{Operation: logical.UpdateOperation, Path: "entity",
+					Data: map[string]any{"name": fmt.Sprintf("ent%d", len(w.toks))}})
+				if err != nil || er == nil || er.IsError() {
+					t.Fatalf("harness: entity: %v %v", er, err)
+				}
+				id, _ := er.Data["id"].(string)
+				pol := []string{"p1", "p2"}[fairIndex(rt, "pol", 2)]
+				te := &logical.TokenEntry{Path: "test", Policies: []string{pol}, EntityID: id, TTL: time.Hour}
+				testMakeTokenDirectly(t, tc.ctx, tc.c.tokenStore, te)
+				w.toks = append(w.toks, &c02Tok{name: fmt.Sprintf("t%d", len(w.toks)), id: te.ID, acc: te.Accessor, policies: []string{pol}, alive: true, entity: id})
+				w.logf("token t%d policies=[%s] bound to entity", len(w.toks)-1, pol)
+			},
+			"entity-toggle": func(rt *rapid.T) {
+				var c []*c02Tok
+				for _, tk := range w.toks {
+					if tk.entity != "" {
+						c = append(c, tk)
+					}
+				}
+				if len(c) == 0 {
+					return
+				}
+				tk := c[fairIndex(rt, "which", len(c))]
+				tk.entityOff = !tk.entityOff
+				r, err := tc.c.identityStore.HandleRequest(tc.ctx, &logical.Request{Operation: logical.UpdateOperation, Path: "entity/id/" + tk.entity,
+					Data: map[string]any{"disabled": tk.entityOff}})
+				if err != nil || (r != nil && r.IsError()) {
+					t.Fatalf("harness: entity update: %v %v", r, err)
+				}
+				w.logf("entity of %s disabled=%v", tk.name, tk.entityOff)
+			},
+			// let a token's lifetime run out: its lease is moved into the past (instead of waiting for the clock)
+			"expire": func(rt *rapid.T) {
+				var c []*c02Tok
+				for _, tk := range w.toks[1:] {
+					if tk.alive && !tk.batch && tk.ns == "" {
+						c = append(c, tk)
+					}
+				}
+				if len(c) == 0 {
+					return
+				}
+				tk := c[fairIndex(rt, "which", len(c))]
+				te, err := tc.c.tokenStore.Lookup(tc.ctx, tk.id)
+				if err != nil || te == nil {
+					return
+				}
+				le, err := tc.c.expiration.FetchLeaseTimesByToken(tc.ctx, te)
+				if err != nil || le == nil {
+					return
+				}
+				full, err := tc.c.expiration.loadEntry(tc.ctx, le.LeaseID)
+				if err != nil || full == nil {
+					return
+				}
+				full.ExpireTime = time.Now().Add(-2 * time.Second)
+				if err := tc.c.expiration.persistEntry(tc.ctx, full); err != nil {
+					t.Fatalf("harness: persist lease: %v", err)
+				}
+				// deliberately NOT told to the expiration manager's timers: the request path itself must notice the expiry
+				tk.alive = false
+				w.logf("expire %s (lease moved into the past)", tk.name)
+			},
 			"revoke": func(rt *rapid.T) {
 				if len(w.toks) < 2 {
 					rt.Skip("no token")
@@ -428,7 +499,7 @@ func TestVerif_C02_Authz(t *testing.T) {
 			"request4": func(rt *rapid.T) { request(rt) },
 		}
 		// rapid favours small draw values, so the slot table starts with the actions that should dominate
-		slots := []string{"request", "request", "request", "toggle-and-repeat", "request", "request", "token", "toggle-and-repeat", "policy", "request", "request", "revoke", "policy-delete", "token", "policy", "policy-write-fault"}
+		slots := []string{"request", "request", "request", "toggle-and-repeat", "request", "request", "token", "toggle-and-repeat", "policy", "request", "request", "revoke", "policy-delete", "token", "policy", "policy-write-fault", "entity-token", "entity-toggle", "request", "expire", "entity-toggle"}
 		rt.Repeat(map[string]func(*rapid.T){
 			"step": func(rt *rapid.T) {
 				a := slots[fairIndex(rt, "action", len(slots))]
@@ -484,7 +555,13 @@ func (w *c02World) doRequest(rt *rapid.T, rec *verifx.Recorder, q c02Req, last m
 	case q.tok == -3:
 		src := w.toks[len(w.toks)-1]
 		b := []byte(src.id)
-		i := len(b) - 3
+		// change one character of the authenticated body (not of a trailing ".<namespace id>" suffix, which is a
+		// routing hint and not part of what authenticates the token)
+		body := len(b)
+		if j := strings.LastIndex(src.id, "."); j > 8 {
+			body = j
+		}
+		i := 4 + (body-4)/2
 		if b[i] == 'A' {
 			b[i] = 'B'
 		} else {
@@ -535,6 +612,9 @@ func (w *c02World) doRequest(rt *rapid.T, rec *verifx.Recorder, q c02Req, last m
 		live := tk.alive && (tk.uses == 0 || tk.uses > 0)
 		defer func() { rec.Class("valid-token-request:"+expect, 1) }()
 		if tk.cidr && q.remote != "10.1.1.1" {
+			live = false
+		}
+		if tk.entity != "" && tk.entityOff {
 			live = false
 		}
 		switch {
